@@ -1,7 +1,7 @@
 (* C04 — snapshots are isolated, read-only and harmless to the original.
    A snapshot is a handle holding a reference on a version (Proto.s_snapshot). *)
 From stdpp Require Import gmap.
-From GK Require Import Base Treap Store StoreSpec StoreRefine Proto ProtoProofs.
+From GK Require Import Base Treap Store StoreSpec StoreRefine MStore Proto ProtoProofs.
 
 (* while a snapshot handle is open its version is live ... *)
 Theorem c04_snapshot_version_live : forall s, reachable s -> forall h hd v,
@@ -28,3 +28,31 @@ Theorem c04_others_untouched : forall s o n n' s' r, op_name o = Some n -> cmp_b
   sstep s o = (s', r) -> cget (ss_cur s') n' = cget (ss_cur s) n'.
 Proof. exact StoreRefine.c12_others_untouched. Qed.
 Print Assumptions c04_others_untouched.
+
+(* store level, over whole histories on several handles (MStore.mrun is compared with the implementation):
+   a snapshot that no operation of the history goes through is exactly as it was -- whatever is done to the original
+   (mutations, flushes, evictions, collection removal or replacement, Close) or to other snapshots *)
+Theorem c04_snapshot_isolated : forall ops s k, (k < length s)%nat ->
+  (forall m, In m ops -> mop_handle m <> k) -> nth_error (mexec s ops) k = nth_error s k.
+Proof. exact MStore.snapshot_isolated. Qed.
+Print Assumptions c04_snapshot_isolated.
+
+(* a snapshot starts with the current collections of its source, unflushed changes included, and is read-only *)
+Theorem c04_snapshot_sees_current : forall s h hs s' r, nth_error s h = Some hs -> MStore.h_closed hs = false ->
+  mstep s (MSnap h) = (s', r) ->
+  exists sn, nth_error s' (length s) = Some sn /\ s_cur (MStore.h_store sn) = s_cur (MStore.h_store hs) /\ MStore.h_ro sn = true.
+Proof. exact MStore.snapshot_sees_current. Qed.
+Print Assumptions c04_snapshot_sees_current.
+
+(* snapshots refuse Set, Delete and Flush, unchanged by the refusal *)
+Theorem c04_snapshot_refuses : forall s h hs o s' r, nth_error s h = Some hs -> MStore.h_closed hs = false ->
+  MStore.h_ro hs = true -> refused o = true -> mstep s (MOp h o) = (s', r) ->
+  s' = s /\ (r = MOut RErr \/ r = MOut RNoColl).
+Proof. exact MStore.snapshot_refuses. Qed.
+Print Assumptions c04_snapshot_refuses.
+
+(* nothing done through one handle changes any other handle *)
+Theorem c04_step_isolated : forall s m s' r k, mstep s m = (s', r) -> k <> mop_handle m ->
+  (k < length s)%nat -> nth_error s' k = nth_error s k.
+Proof. exact MStore.mstep_isolated. Qed.
+Print Assumptions c04_step_isolated.
